@@ -257,30 +257,17 @@ def classify(spec, hist, i, a_long, a_fresh):
             return ('created-module-unseen-dist1' if created else 'stale-direct-import-dist1'), False, {}
         return 'stale-though-importers-modified-dist%d' % dist[M], False, {}
 
-    # what the long-lived answer shows that the fresh one does not (for lint an 'Undefined name' row is the
-    # absence of that name, so the sides are swapped): nothing -> the long-lived project only LACKS things
-    def shows(side_only, other_only):
-        out = set()
-        for a, o in side_only:
-            if o and not (probe['kind'] == 'lint' and '"E02"' in a):
-                out.add(o)
-        for a, o in other_only:
-            if o and probe['kind'] == 'lint' and '"E02"' in a:
-                out.add(o)
-        return out
-    long_shows = shows(al - af, af - al)
-    info['evidence'] = 'long-lived shows outdated items of %s' % sorted(long_shows) if long_shows else 'long-lived only lacks items'
-    # prefer a candidate whose staleness is explained by an importer that was not modified after it
-    # (the importer's cached analysis); when the long-lived answer merely lacks things and a module was
-    # created after a failed lookup, that explanation comes first; if nothing is explained, blame the nearest
+    # Which explanation?  (1) a module of which the long-lived answer shows one version and the fresh answer
+    # another (identifiers / positions owned by it on BOTH sides of the difference) and that has an importer
+    # which was not modified since: stale content.  (2) otherwise a module created after a failed lookup
+    # behind such an importer.  (3) otherwise any explained candidate, (4) otherwise the nearest candidate.
+    def both_sides(m):
+        return any(o == m for _, o in al - af) and any(o == m for _, o in af - al)
     explained = [(m,) + explain(m) for m in cands]
-    pick = None
-    if not long_shows:
-        pick = next((e for e in explained if e[2] and e[1].startswith('created-')), None)
-    if pick is None:
-        pick = next((e for e in explained if e[2] and (e[0] in long_shows or not long_shows)), None)
-    if pick is None:
-        pick = next((e for e in explained if e[2]), explained[0])
+    pick = next((e for e in explained if e[2] and e[1].startswith('stale-') and both_sides(e[0])), None) or \
+        next((e for e in explained if e[2] and e[1].startswith('created-')), None) or \
+        next((e for e in explained if e[2]), explained[0])
+    info['outdated_version_visible'] = bool(pick[2] and pick[1].startswith('stale-') and both_sides(pick[0]))
     M, label, _, extra = pick
     info['culprit'] = M
     info['culprit_ops'] = st['ops'].get(M)
